@@ -496,8 +496,8 @@ def classify(case, impl, model):
         if a != b:
             fa, fb = fields(a), fields(b)
             if k < len(ops) and ops[k].startswith("plan"):
-                prev = fields(si[k - 1]) if k else None
-                if "staging-left-behind" in a or prev is None or any(fa.get(x) != prev.get(x) for x in ("j", "cur", "sn", "fs", "ax")):
+                prev = fields(si[k - 1]) if k else fb      # the model's plan segment carries the unchanged state
+                if "staging-left-behind" in a or any(fa.get(x) != prev.get(x) for x in ("j", "cur", "sn", "fs", "ax")):
                     return "P", "Plan (the dry run) changed installed state or left its staging directory behind at op #%d: impl=%r model=%r" % (k, a, b)
             if k < len(ops) and inadmissible(ops[k]):
                 prev = fields(si[k - 1]) if k else None
